@@ -78,6 +78,8 @@ class Body:
                     vv = vmap.get(str(v))
                     nm = vv["name"] if vv else str(v)
                     seen.add(nm)
+                    if b.get("inlined_poll_switch") and nm == "Pending":
+                        continue
                     out.append((tg, ("variant", t.get("adt"), (nm,), on, tuple(vv["ftys"]) if vv else ())))
                 rest = tuple(v["name"] for v in t["variants"] if v["name"] not in seen)
                 if rest:
@@ -264,7 +266,9 @@ class Body:
         return out
 
     def reachable_blocks(self):
-        return self.reach_from(0) | {0}
+        if not hasattr(self, "_live"):
+            self._live = self.reach_from(0) | {0}
+        return self._live
 
     def reach_from(self, bb, avoid=()):
         """blocks reachable from bb by >=1 normal edge (bb itself only if on a cycle)"""
@@ -935,6 +939,8 @@ def _copy_blocks(cj, lo, bo, origin_name, origin_file):
     out = []
     for b in cj["blocks"]:
         nb = {"id": b["id"] + bo, "cleanup": b["cleanup"], "stmts": [], "origin": b.get("origin", origin_name), "file": b.get("file", origin_file), "orig_id": b.get("orig_id", b["id"])}
+        if b.get("inlined_poll_switch"):
+            nb["inlined_poll_switch"] = True
         for st in b["stmts"]:
             nb["stmts"].append({"lhs": _ren_place(st["lhs"], lo, bo), "rv": _ren_rv(st["rv"], lo, bo), "line": st.get("line")})
         nb["term"] = _ren_term(b["term"], lo, bo)
@@ -1090,4 +1096,7 @@ class ViewBuilder:
         pt["orig_target"] = pt["target"]
         pt["target"] = pre["id"]
         pt["inlined"] = co_name
+        # the spliced-in body runs to completion: the poll switch that follows can only take its Ready edge
+        if ret_target >= 0 and j["blocks"][ret_target]["term"]["k"] == "switch":
+            j["blocks"][ret_target]["inlined_poll_switch"] = True
         create["inlined_async"] = cn
